@@ -130,8 +130,8 @@ def ev(e, env):
             return getattr(b, e.attr)
         if isinstance(b, tuple) and hasattr(type(b), '_fields') and e.attr in type(b)._fields:
             return getattr(b, e.attr)       # a namedtuple of the rule
-        if getattr(b, '_kv_token', False) and e.attr in ('value', 'type'):
-            return getattr(b, e.attr)       # a lexer token stand-in (a str with .value, like lark's Token)
+        if (getattr(b, '_kv_token', False) or (isinstance(b, str) and type(b).__name__ == 'Token')) and e.attr in ('value', 'type'):
+            return getattr(b, e.attr)       # a lexer token (lark's Token is a str with .value / .type) or its stand-in
         if b is None or isinstance(b, (NS, int, float, str, tuple, list)):
             raise AttributeError(f'{type(b).__name__!r} object has no attribute {e.attr!r}')    # what the code itself would raise
         raise ModelError(f'minieval: attribute {ast.unparse(e)}')
@@ -258,6 +258,15 @@ def ev(e, env):
             and isinstance(env.get(e.args[0].id), LocalFn):
         lf = env[e.args[0].id]
         return [call_function(lf.fdef, [x], lf.env) for x in ev(e.args[1], env)]
+    if isinstance(e, ast.Call) and isinstance(e.func, ast.Name) and e.func.id == 'setattr' and len(e.args) == 3 and not e.keywords:
+        o, a, v = ev(e.args[0], env), ev(e.args[1], env), ev(e.args[2], env)
+        if isinstance(o, NS) and isinstance(a, str):
+            setattr(o, a, v)
+            return None
+        raise ModelError('minieval: setattr on an unmodelled object')
+    if isinstance(e, ast.Call) and isinstance(e.func, ast.Name) and e.func.id == 'map' and len(e.args) == 2 and not e.keywords and isinstance(e.args[0], ast.Name) \
+            and e.args[0].id in ('int', 'float', 'str', 'bool') and e.args[0].id not in env:
+        return [_CALLS[e.args[0].id](x) for x in ev(e.args[1], env)]
     if isinstance(e, ast.Call) and isinstance(e.func, ast.Name) and e.func.id == 'getattr' and len(e.args) in (2, 3) and not e.keywords:
         o, a = ev(e.args[0], env), ev(e.args[1], env)
         if isinstance(o, NS) and isinstance(a, str):
@@ -457,6 +466,9 @@ def run(stmts, env):
             ev(st.value, env)
             continue
         if isinstance(st, ast.Expr) and isinstance(st.value, ast.Call) and isinstance(st.value.func, ast.Name) and st.value.func.id == 'print':
+            continue
+        if isinstance(st, ast.Expr) and isinstance(st.value, ast.Call) and isinstance(st.value.func, ast.Name) and st.value.func.id == 'setattr' and 'setattr' not in env:
+            ev(st.value, env)
             continue
         if isinstance(st, ast.Expr) and isinstance(st.value, ast.Call) and isinstance(st.value.func, ast.Name) and (
                 getattr(env.get(st.value.func.id), '_kv_class', False) or getattr(env.get(st.value.func.id), '_kv_stub', False)
